@@ -87,16 +87,27 @@ class Build:
             for k, v in rep.items():
                 if v["status"] != "ok":
                     self.broken.append(("fragment", k, v.get("error", "")))
-        try:
-            import sites
-            text, rep = sites.generate(REPO)
-            self._write_if_changed(os.path.join(gen, "Sites.v"), text)
-            self.gen_report["Sites.v"] = rep
-            for k, v in rep.items():
-                if isinstance(v, dict) and v.get("status") == "failed":
-                    self.broken.append(("site", k, v.get("error", "")))
-        except ImportError:
-            pass
+        # site extractors: tools/sitegen/*.py, each with generate(repo) -> ({file name: coq text}, report)
+        sg = os.path.join(VERIF, "tools", "sitegen")
+        if os.path.isdir(sg):
+            import importlib.util
+            for fn in sorted(os.listdir(sg)):
+                if not fn.endswith(".py") or fn.startswith("_"):
+                    continue
+                sp = importlib.util.spec_from_file_location("sitegen_" + fn[:-3], os.path.join(sg, fn))
+                m = importlib.util.module_from_spec(sp)
+                try:
+                    sp.loader.exec_module(m)
+                    files, rep = m.generate(REPO)
+                except Exception as ex:  # noqa: BLE001  (fail-closed: record, keep going)
+                    self.broken.append(("site", fn, f"{type(ex).__name__}: {ex}"))
+                    continue
+                for name, text in files.items():
+                    self._write_if_changed(os.path.join(gen, name), text)
+                self.gen_report[fn] = rep
+                for k, v in rep.items():
+                    if isinstance(v, dict) and v.get("status") == "failed":
+                        self.broken.append(("site", k, v.get("error", "")))
 
     def changed_gen(self):
         """names of generated files that differ from the committed reference copy in coq/Gen"""
@@ -153,10 +164,15 @@ class Build:
                 if fn.endswith(".v"):
                     p = os.path.join(root, fn)
                     txt = strip_comments(open(p).read())
+                    depth = 0
                     for i, line in enumerate(txt.splitlines(), 1):
+                        if re.match(r"\s*Section\s+\w+\s*\.", line):
+                            depth += 1
                         m = HYGIENE_RE.search(line)
-                        if m and not _hyg_ok(line, m):
+                        if m and not (depth > 0 and m.group(1) in ("Variable", "Variables", "Hypothesis")):
                             bad.append(f"{os.path.relpath(p, self.dir)}:{i}: {line.strip()[:100]}")
+                        if re.match(r"\s*End\s+\w+\s*\.", line) and depth > 0:
+                            depth -= 1
         for fn in ("_CoqProject", "Makefile.conf"):
             p = os.path.join(self.dir, fn)
             if os.path.exists(p) and re.search(r"type-in-type|impredicative-set|-vos|-vok", open(p).read()):
@@ -199,17 +215,31 @@ class Build:
                 outs[i] = out
         return outs
 
+    def judge(self, name, imports, case_type, judge_fn, lits, chunk=500, timeout=300):
+        """Evaluate `run_judge judge_fn cases` inside Coq over the given case literals (strings of
+        Coq type case_type).  Returns [(case index, verdict code)] for the non-zero verdicts."""
+        header = ("From Coq Require Import ZArith List Bool.\n" + imports + "\nFrom Verif Require Import Judge.\n"
+                  "Import ListNotations.\nOpen Scope Z_scope.\nSet Printing Width 1000000.\nSet Printing Depth 1000000.\n")
+        chunks = []
+        for k in range(0, len(lits), chunk):
+            chunks.append(f"Definition cases : list ({case_type}) := [\n" + ";\n".join(lits[k:k + chunk]) +
+                          f"].\nEval vm_compute in (run_judge ({judge_fn}) cases).")
+        outs = self.eval_cases(name, header, chunks, timeout=timeout)
+        res = []
+        for k, out in enumerate(outs):
+            ev = parse_eval_lists(out)
+            if len(ev) != 1:
+                raise CoqEvalError(f"unexpected Coq output for {name}_{k}: {out[-800:]}")
+            for m in re.finditer(r"\(\s*(-?\d+)\s*,\s*(-?\d+)\s*\)", ev[0]):
+                res.append((k * chunk + int(m.group(1)), int(m.group(2))))
+        return res
+
     def cleanup(self):
         shutil.rmtree(self.dir, ignore_errors=True)
 
 
 class CoqEvalError(Exception):
     pass
-
-
-def _hyg_ok(line, m):
-    # `Variable`/`Hypothesis` are legal inside a Section; the per-file scan below checks nesting
-    return False
 
 
 def strip_comments(txt):
